@@ -238,3 +238,11 @@ def c16(run):
 @prop("C07")
 def c07(run):
     return P.check_c07(run)
+
+
+import langfam as L  # noqa: E402
+
+
+@prop("C02")
+def c02(run):
+    return L.check_c02(run)
